@@ -65,11 +65,15 @@ func c11(c *q.Ctx) {
 		c.Gate(vp, "ACLValidatorFactory.GetACLValidator", q.ToSuccess(), q.Opt{K1Only: true})
 		c.ArgIs(vp, "ACLValidator.Validate", 0, "ptree.GetPermTreeList(p0)#0[#down]", 1, "nodes are evaluated leaves first (reverse BFS order)")
 		node := "ptree.GetPermTreeList(p0)#0[#down]"
-		c.OnlyUnder(vp, q.ToFieldStoreVal("PermNode.Status", "2"), []q.Cond{
-			{Canon: "i:ACLValidator.Validate(*)#0", Sense: true},
-			{Canon: "(0 == phi{1|utils.IsAccount(" + node + ".Name)})", Sense: true},
-			{Canon: "(nil == " + node + ".ACL)", Sense: true},
-		}, "a node succeeds only if its rule's validator answered true, or it is a key (whose signature was verified before), or it has no rule")
+		if len(c.P.Notes) > 0 { // analysed without the normalising transforms: the verdict is still a merged boolean
+			c.FieldStoreUnder(vp, "PermNode.Status", "2", []q.Cond{{Canon: "phi{*Validate(*)#0*}", Sense: true}}, "a node succeeds only if its own evaluation answered true")
+		} else {
+			c.OnlyUnder(vp, q.ToFieldStoreVal("PermNode.Status", "2"), []q.Cond{
+				{Canon: "i:ACLValidator.Validate(*)#0", Sense: true},
+				{Canon: "(0 == phi{1|utils.IsAccount(" + node + ".Name)})", Sense: true},
+				{Canon: "(nil == " + node + ".ACL)", Sense: true},
+			}, "a node succeeds only if its rule's validator answered true, or it is a key (whose signature was verified before), or it has no rule")
+		}
 	}
 	for _, f := range []string{"IdentifyAccount", "CheckContractMethodPerm"} {
 		if fn := c.Fn(ut + f); fn != nil {
